@@ -5,6 +5,10 @@ VERIF = os.path.dirname(os.path.dirname(os.path.abspath(__file__)))
 ALL = ["C%02d" % i for i in range(1, 21)]
 
 CLAIMED = {
+ "C06": dict(
+    text="Generated rectangle lists (orthogons with several branches per side, near misses by gap / overhang / overlap, repeated rectangles, random lists, every order; dyadic and decimal lattices) passed to create_stog directly and through Netlist loading, judged by a brute-force search over all candidate trunks on the exact lattice coordinates; verdict, trunk-first, side roles, no-role-otherwise and permutation/immutability are all asserted.",
+    note="Trusted: the exact-geometry abutment predicate (15 lines, Fractions). Lattice unit >= 0.0025 so that contacts and misses are far from FRAME's epsilons.",
+    technique="property-based testing (Hypothesis) against a brute-force reference recogniser", ref="4/C06"),
  "C17": dict(
     text="Generated disc pairs concentrated on the numerically hard region (centre distance within +-4 ulps of r1+r2 and |r1-r2|, equal and nearly equal radii, radii over six decades, axis-aligned / 3-4-5 / arbitrary directions) judged against the 50-digit mpmath lens area of the float inputs: totality, symmetry (1e-6 R^2), bounds, accuracy (1e-5 R^2).",
     note="Trusted: mpmath at 50 digits, Fraction arithmetic for the case split. Radii in [1e-3, 1e3], |coordinates| <= 1e4.",
